@@ -18,10 +18,12 @@ IMPORTS = "From Allfed Require Import Gen.Shutoff Model.Rounds."
 DEFS = """
 Fixpoint lookup_shutoff (k : string) (t : list (string * (dur * dur * Q))) : option (dur * dur * Q) :=
   match t with [] => None | (k', v) :: t' => if String.eqb k k' then Some v else lookup_shutoff k t' end.
-Definition dispatch_ok (opt : string) (n fm bm : nat) (thr : Q) (overridden : bool) : nat :=
+Definition dispatch_ok (opt : string) (n fm bm : nat) (thr : Q) (override : option Q) : nat :=
   match lookup_shutoff opt shutoff_table with
   | None => 2%nat
-  | Some (f, b, t) => if Nat.eqb (months_of f n) fm && Nat.eqb (months_of b n) bm && (overridden || Qeq_bool t thr) then 0%nat else 1%nat
+  | Some (f, b, t) =>
+      let expected := match override with Some o => o | None => t end in   (* a numeric override wins over the option's own threshold *)
+      if Nat.eqb (months_of f n) fm && Nat.eqb (months_of b n) bm && Qeq_bool expected thr then 0%nat else 1%nat
   end.
 Definition demand_ok (annual : Q) (d n : nat) (obs : list Q) : nat :=
   if close_rel_list (1 # 1000000000000) (demand (monthly_of_annual annual) d n) obs then 0%nat else 1%nat.
@@ -74,6 +76,9 @@ def run(ctx):
                  for c in (["USA", "BRA"] if ctx.quick else ["USA", "BRA", "ARG", "AUS", "CAN", "FRA", "DEU", "CHN"])]
     sentinels.append({"iso3": "ARG", "option": pools.option(shutoff="immediate", grasses="baseline", crop_disruption="zero",
                                                             fish="baseline", nutrition="baseline")})
+    # very small countries (every monthly flow is a fraction of a billion kcal) with feed demand
+    sentinels += [{"iso3": "LUX", "option": pools.option(shutoff="continued")},
+                  {"iso3": "MLT", "option": pools.option(shutoff="long_delayed_shutoff")}]
     runs = pinned + sentinels + runs
     res = ctx.run_impl("c03_impl", {"demand_cases": dcases, "runs": runs, "procs": 14})
     terms = []
@@ -104,14 +109,15 @@ def run(ctx):
         ctx.traces += 1
         dist["by_shutoff"][o["shutoff"]] = dist["by_shutoff"].get(o["shutoff"], 0) + 1
         n = len(r["feed_demand"])
-        overridden = "MINIMUM_PERCENT_FED_BEFORE_NONHUMAN_CONSUMPTION_ALLOWED" in o
+        ov = o.get("MINIMUM_PERCENT_FED_BEFORE_NONHUMAN_CONSUMPTION_ALLOWED")
+        overridden = "None" if ov is None else f"(Some {fq(float(ov))})"
         # the dispatcher first applies alter_scenario_if_known_to_fail (SLV / ALB / ECU with certain option sets are silently
         # rewritten to shutoff: immediate - modelled and proved about in C13); the table is compared with the EFFECTIVE value
         eff = r.get("effective_shutoff", o["shutoff"])
         if eff != o["shutoff"]:
             dist.setdefault("rewritten_by_known_to_fail_table", []).append([r["iso3"], o["shutoff"], eff])
         terms.append(f"dispatch_ok {cstr(eff)} {cnat(n)} {cnat(r['feed_months'])} {cnat(r['biofuel_months'])} "
-                     f"{fq(r['threshold'])} {'true' if overridden else 'false'}")
+                     f"{fq(r['threshold'])} {overridden}")
         nontriv = len(r["rounds"]) == 3 and (sum(r["feed_demand"]) + sum(r["biofuel_demand"])) > 0
         ctx.count(("run", r["iso3"], json.dumps({k: v for k, v in o.items() if k != "title"}, sort_keys=True)), nontrivial=nontriv)
         where = {"iso3": r["iso3"], "option": o}
